@@ -261,8 +261,9 @@ func similarity(kind string, old Ident, of, nf Fingerprint, newName string) floa
 		if of.Shape != "" && of.Shape == nf.Shape {
 			return 0.95
 		}
-		return 0.35*jaccard(maskAll(of.Callees), maskAll(nf.Callees)) + 0.15*jaccard(of.Strings, nf.Strings) +
-			0.10*ratio(of.Stmts, nf.Stmts) + 0.40*uses
+		// the body differs: at most 0.9
+		return 0.9 * (0.35*jaccard(maskAll(of.Callees), maskAll(nf.Callees)) + 0.15*jaccard(of.Strings, nf.Strings) +
+			0.10*ratio(of.Stmts, nf.Stmts) + 0.40*uses)
 	case "type":
 		if of.Body != "" && of.Body == nf.Body {
 			return 1
@@ -423,6 +424,9 @@ func (u *unit) match(pm *PkgManifest) *matchResult {
 		if id.Kind == "type" {
 			continue
 		}
+		if (id.Kind == "method" || id.Kind == "field") && id.Owner == "" {
+			continue // member of an unnamed type: cannot be looked up by owner, left to the compiler
+		}
 		owner := mapOwner(id.Owner, res.typeMap)
 		if a.lookup(id.Kind, owner, id.Name) != nil {
 			continue
@@ -443,7 +447,7 @@ func (u *unit) match(pm *PkgManifest) *matchResult {
 				continue
 			}
 			// a name that already existed for this kind and owner is another identifier, not a rename of this one
-			if a.ownerOf(o) == owner && inInv(pm.Inventory, invKey, o.Name()) {
+			if inInv(pm.Inventory, invKey, o.Name()) {
 				continue
 			}
 			pool = append(pool, o)
